@@ -2,7 +2,7 @@
 import core, suites
 from core import World
 from gen import Gen, mode_line
-from suites import gen_history, emit_exec, exp_silent, exp_same_fs, run_suite
+from suites import gen_history, emit_exec, exp_silent, exp_same_fs, run_suite, gen_nest, emit_nested
 
 LEAN_MODULES = ['GoSnaps.Props.C01', 'GoSnaps.Props.C01World']
 REPLAY_MODES = [(False, ''), (False, 'true'), (True, ''), (False, 'clean'), (True, 'true')]
@@ -12,7 +12,7 @@ def make_spec(g, allow):
     r = g.r
     h = gen_history(g, allow)
     spec = dict(cfgs=h.cfgs, execs=h.execs, flags=set(h.flags), recmode=r.choice(['', '', 'true']),
-                modes=r.sample(REPLAY_MODES, 3), pre=[])
+                modes=r.sample(REPLAY_MODES, 3), pre=[], nest=gen_nest(r, h.execs, 0.3))
     if r.random() < 0.4:
         h0 = gen_history(g, ('nosafn',), max_tests=2, max_calls=3, ncfg=len(h.cfgs))
         spec['flags'] |= h0.flags
@@ -35,27 +35,33 @@ def render(tag, spec):
             texec += 1
             emit_exec(w, texec, name, calls)
         w.add('reset')
-    for ei, (name, calls) in enumerate(spec['execs']):
-        texec += 1
-        rec_idx[ei] = emit_exec(w, texec, name, calls)
+    base = texec
+
+    def rec_call(i, k, cfgno, c, te):
+        rec_idx.setdefault(i, []).append(w.add(c.op(cfgno, te)))
+    emit_nested(w, spec['execs'], spec.get('nest', {}), lambda i: base + i + 1, rec_call)
+    for ei in range(len(spec['execs'])):
+        rec_idx.setdefault(ei, [])
+    texec = base + len(spec['execs'])
     ref = w.add('fsdump')
     for ci, upd in spec['modes']:
         w.add('reset')
         w.add(mode_line(ci, upd))
-        for ei, (name, calls) in enumerate(spec['execs']):
-            texec += 1
-            w.add('begin %d %s' % (texec, core.hx(name)))
-            for k, (cfgno, c) in enumerate(calls):
-                ri = rec_idx[ei][k]
+        base2 = texec
 
-                def exp(line, raw, ww, ri=ri):
-                    # only calls that were recorded (an `added` log, nothing else) must replay silently
-                    rec = core.Line(ww.impl[ri])
-                    if [k for k, _ in rec.events] != ['L']:
-                        return None
-                    return exp_silent(line, raw, ww)
-                w.add(c.op(cfgno, texec), ('replay-silent', exp))
-            w.add('end %d' % texec)
+        def rep_call(i, k, cfgno, c, te):
+            ri = rec_idx[i][k]
+
+            def exp(line, raw, ww, ri=ri):
+                # only calls that were recorded (an `added` log, nothing else) must replay silently
+                rec = core.Line(ww.impl[ri])
+                if [k for k, _ in rec.events] != ['L']:
+                    return None
+                return exp_silent(line, raw, ww)
+            w.add(c.op(cfgno, te), ('replay-silent', exp))
+        # the same calls in the same per-test order; the interleaving of tests is the same too
+        emit_nested(w, spec['execs'], spec.get('nest', {}), lambda i: base2 + i + 1, rep_call)
+        texec = base2 + len(spec['execs'])
         allrec = [i for ei in rec_idx for i in rec_idx[ei]]
 
         def exp_dir(line, raw, ww, ref=ref, allrec=allrec):
